@@ -68,6 +68,13 @@ pub struct Case {
     /// https exchange can succeed without a TLS session, whatever the flags
     #[serde(default)]
     pub refusing_proxy: u8,
+    /// the https URL names the same host and port as the (plain http) proxy it is sent through: still a tunnel, still TLS inside
+    #[serde(default)]
+    pub same_endpoint: bool,
+    /// the origin is the IPv6 literal `[::7f00:1]` (its low 32 bits spell 127.0.0.1, an address the `good` certificate lists),
+    /// reached through a tunnel: the certificate is not valid for that host
+    #[serde(default)]
+    pub v6_low_bits: bool,
 }
 
 pub struct C14;
@@ -111,9 +118,9 @@ pub fn all_cases() -> Vec<Case> {
                     for route in 0..3u8 {
                         for place in 0..5u8 {
                             for host_form in 0..2u8 {
-                                v.push(Case { cert, invalid_certs, invalid_hostnames, add_root, route, place, host_form, pin_leaf: false, withdraw: 0, prior: 0, expiring: false, not_yet_valid: false, refusing_proxy: 0 });
+                                v.push(Case { cert, invalid_certs, invalid_hostnames, add_root, route, place, host_form, pin_leaf: false, withdraw: 0, prior: 0, expiring: false, not_yet_valid: false, refusing_proxy: 0, same_endpoint: false, v6_low_bits: false });
                                 if add_root {
-                                    v.push(Case { cert, invalid_certs, invalid_hostnames, add_root, route, place, host_form, pin_leaf: true, withdraw: 0, prior: 0, expiring: false, not_yet_valid: false, refusing_proxy: 0 });
+                                    v.push(Case { cert, invalid_certs, invalid_hostnames, add_root, route, place, host_form, pin_leaf: true, withdraw: 0, prior: 0, expiring: false, not_yet_valid: false, refusing_proxy: 0, same_endpoint: false, v6_low_bits: false });
                                 }
                             }
                         }
@@ -129,7 +136,7 @@ pub fn all_cases() -> Vec<Case> {
                 for add_root in [false, true] {
                     for place in 0..5u8 {
                         for host_form in 0..2u8 {
-                            v.push(Case { cert, invalid_certs, invalid_hostnames, add_root, route: 3, place, host_form, pin_leaf: false, withdraw: 0, prior: 0, expiring: false, not_yet_valid: false, refusing_proxy: 0 });
+                            v.push(Case { cert, invalid_certs, invalid_hostnames, add_root, route: 3, place, host_form, pin_leaf: false, withdraw: 0, prior: 0, expiring: false, not_yet_valid: false, refusing_proxy: 0, same_endpoint: false, v6_low_bits: false });
                         }
                     }
                 }
@@ -142,7 +149,7 @@ pub fn all_cases() -> Vec<Case> {
             for add_root in [false, true] {
                 for place in 0..2u8 {
                     for host_form in 0..2u8 {
-                        v.push(Case { cert, invalid_certs, invalid_hostnames, add_root, route: 0, place, host_form, pin_leaf: false, withdraw, prior: 0, expiring: false, not_yet_valid: false, refusing_proxy: 0 });
+                        v.push(Case { cert, invalid_certs, invalid_hostnames, add_root, route: 0, place, host_form, pin_leaf: false, withdraw, prior: 0, expiring: false, not_yet_valid: false, refusing_proxy: 0, same_endpoint: false, v6_low_bits: false });
                     }
                 }
             }
@@ -154,19 +161,23 @@ pub fn all_cases() -> Vec<Case> {
             for route in [0u8, 1] {
                 for prior in [1u8, 2] {
                     for host_form in 0..2u8 {
-                        v.push(Case { cert, invalid_certs: false, invalid_hostnames: false, add_root, route, place: 0, host_form, pin_leaf: false, withdraw: 0, prior, expiring: false, not_yet_valid: false, refusing_proxy: 0 });
+                        v.push(Case { cert, invalid_certs: false, invalid_hostnames: false, add_root, route, place: 0, host_form, pin_leaf: false, withdraw: 0, prior, expiring: false, not_yet_valid: false, refusing_proxy: 0, same_endpoint: false, v6_low_bits: false });
                     }
                 }
             }
         }
     }
     // validity is judged at the time of each exchange
-    v.push(Case { cert: 0, invalid_certs: false, invalid_hostnames: false, add_root: true, route: 0, place: 0, host_form: 0, pin_leaf: false, withdraw: 0, prior: 0, expiring: true, not_yet_valid: false, refusing_proxy: 0 });
-    v.push(Case { cert: 0, invalid_certs: false, invalid_hostnames: false, add_root: true, route: 0, place: 0, host_form: 0, pin_leaf: false, withdraw: 0, prior: 0, expiring: false, not_yet_valid: true, refusing_proxy: 0 });
+    v.push(Case { cert: 0, invalid_certs: false, invalid_hostnames: false, add_root: true, route: 0, place: 0, host_form: 0, pin_leaf: false, withdraw: 0, prior: 0, expiring: true, not_yet_valid: false, refusing_proxy: 0, same_endpoint: false, v6_low_bits: false });
+    v.push(Case { cert: 0, invalid_certs: false, invalid_hostnames: false, add_root: true, route: 0, place: 0, host_form: 0, pin_leaf: false, withdraw: 0, prior: 0, expiring: false, not_yet_valid: true, refusing_proxy: 0, same_endpoint: false, v6_low_bits: false });
+    for danger in [false, true] {
+        v.push(Case { cert: 0, invalid_certs: danger, invalid_hostnames: false, add_root: true, route: 1, place: 0, host_form: 1, pin_leaf: false, withdraw: 0, prior: 0, expiring: false, not_yet_valid: false, refusing_proxy: 0, same_endpoint: true, v6_low_bits: false });
+    }
+    v.push(Case { cert: 0, invalid_certs: false, invalid_hostnames: false, add_root: true, route: 1, place: 0, host_form: 1, pin_leaf: false, withdraw: 0, prior: 0, expiring: false, not_yet_valid: false, refusing_proxy: 0, same_endpoint: false, v6_low_bits: true });
     // a proxy that refuses the tunnel: with and without waivers
     for refusing_proxy in 1..=3u8 {
         for danger in [false, true] {
-            v.push(Case { cert: 0, invalid_certs: danger, invalid_hostnames: danger, add_root: true, route: 1, place: 0, host_form: 0, pin_leaf: false, withdraw: 0, prior: 0, expiring: false, not_yet_valid: false, refusing_proxy });
+            v.push(Case { cert: 0, invalid_certs: danger, invalid_hostnames: danger, add_root: true, route: 1, place: 0, host_form: 0, pin_leaf: false, withdraw: 0, prior: 0, expiring: false, not_yet_valid: false, refusing_proxy, same_endpoint: false, v6_low_bits: false });
         }
     }
     v
@@ -314,6 +325,55 @@ fn check_not_yet_valid(ctx: &mut Ctx) -> Outcome {
     }
 }
 
+/// See Case::v6_low_bits.
+fn check_v6_low_bits(case: &Case, ctx: &mut Ctx) -> Outcome {
+    ctx.nontrivial = true;
+    ctx.label("ipv6-literal-whose-low-bits-spell-a-listed-ipv4-address");
+    let mut peer = connect_proxy_then_tls("good");
+    let port = peer.port();
+    let mut session = attohttpc::Session::new();
+    session.proxy_settings(attohttpc::ProxySettings::builder().https_proxy(url::Url::parse(&format!("http://127.0.0.1:{port}")).unwrap()).build());
+    session.connect_timeout(std::time::Duration::from_secs(5));
+    session.read_timeout(std::time::Duration::from_secs(5));
+    apply_session(&mut session, case);
+    let r = session.get("https://[::7f00:1]:4443/x").send().and_then(|r| r.text_utf8());
+    peer.join();
+    match r {
+        Err(_) => Outcome::Pass,
+        Ok(_) => Outcome::fail(format!("C14:{}:wrong-name-accepted", backend()), format!("[{}] the origin [::7f00:1] (tunnelled) presented a certificate for localhost, 127.0.0.1 and ::1 and was accepted with both danger flags off", backend())),
+    }
+}
+
+/// See Case::same_endpoint.
+fn check_same_endpoint(case: &Case, ctx: &mut Ctx) -> Outcome {
+    ctx.nontrivial = true;
+    ctx.label("https-url-names-the-proxy's-own-host-and-port");
+    let mut peer = connect_proxy_then_tls("good");
+    let port = peer.port();
+    let mut session = attohttpc::Session::new();
+    session.proxy_settings(attohttpc::ProxySettings::builder().https_proxy(url::Url::parse(&format!("http://127.0.0.1:{port}")).unwrap()).build());
+    session.connect_timeout(std::time::Duration::from_secs(5));
+    session.read_timeout(std::time::Duration::from_secs(5));
+    apply_session(&mut session, case);
+    let r = session.get(format!("https://127.0.0.1:{port}/x")).header("Authorization", "Bearer MSECRET").send().and_then(|r| r.text_utf8());
+    peer.join();
+    let seen = peer.seen.lock().unwrap().clone();
+    match &seen.connect_head {
+        Some(h) if h.starts_with("CONNECT ") => {}
+        other => {
+            return Outcome::fail(
+                format!("C14:{}:sent-in-clear-to-the-proxy", backend()),
+                format!("[{}] https://127.0.0.1:{port}/x through the proxy http://127.0.0.1:{port}: the first thing the proxy received was {:?}, not a CONNECT request", backend(), other.as_ref().map(|h| &h[..h.len().min(60)])),
+            )
+        }
+    }
+    match r {
+        Ok(_) if seen.request_head.is_some() => Outcome::Pass,
+        Ok(b) => Outcome::fail(format!("C14:{}:response-without-tls", backend()), format!("[{}] a response ({b:?}) came back although no request was received inside a TLS session", backend())),
+        Err(e) => Outcome::fail(format!("C14:{}:valid-peer-rejected", backend()), format!("[{}] tunnel to the proxy's own address, valid certificate for 127.0.0.1, root added: {e:?}", backend())),
+    }
+}
+
 /// See Case::refusing_proxy.
 fn check_refusing_proxy(case: &Case, ctx: &mut Ctx) -> Outcome {
     ctx.nontrivial = true;
@@ -343,7 +403,7 @@ impl Property for C14 {
     const ID: &'static str = "C14";
     const RULE: &'static str = "configuration matrix {chains to the added root, wrong name, self-signed, unknown issuer, expired, each with matching / differing name, valid for only one of the two names of the peer, self-signed CA:TRUE, the good chain served without its key, a chain to the root without any subjectAltName, an unacceptable certificate with the good one appended behind it} x accept_invalid_certs x accept_invalid_hostnames x root added {no, the CA, the presented certificate itself} x \
 route {direct https, inside a CONNECT tunnel through a plain proxy, https proxy presenting the certificate for an http origin and for a tunnelled https origin} x where the flags/root were set {session, this request, sibling request created before / after, session after the request was created} x \
-contacted host {localhost, 127.0.0.1}: 6953 cells per TLS backend (the product of 14 certificates, 192 cells in which a sibling request with a waiver is sent first, one cell with a certificate made at run time that expires between two exchanges, one with a certificate whose validity starts two minutes from now, six with a proxy that refuses the tunnel and would answer a plain request, 800 for an https proxy that carries a CONNECT tunnel, 400 with a waiver given and then withdrawn on the request), each a real TLS handshake against a rustls server on a loopback socket; both tiers run all cells of both backends. Oracle = the truth table, both directions. \
+contacted host {localhost, 127.0.0.1}: 6956 cells per TLS backend (the product of 14 certificates, 192 cells in which a sibling request with a waiver is sent first, one cell with a certificate made at run time that expires between two exchanges, one with a certificate whose validity starts two minutes from now, six with a proxy that refuses the tunnel and would answer a plain request, two with an https URL that names the proxy's own host and port, one with a tunnelled IPv6-literal origin whose low 32 bits spell an address the certificate lists, 800 for an https proxy that carries a CONNECT tunnel, 400 with a waiver given and then withdrawn on the request), each a real TLS handshake against a rustls server on a loopback socket; both tiers run all cells of both backends. Oracle = the truth table, both directions. \
 non-trivial = at least one danger flag, an added root or a non-valid certificate; distinct by cell";
 
     fn assumptions() -> Vec<String> {
@@ -396,7 +456,7 @@ non-trivial = at least one danger flag, an added root or a non-valid certificate
 
     fn strategy(_tier: Tier) -> BoxedStrategy<Case> {
         (0u8..CERTS.len() as u8, any::<bool>(), any::<bool>(), any::<bool>(), 0u8..3, 0u8..5, 0u8..2)
-            .prop_map(|(cert, invalid_certs, invalid_hostnames, add_root, route, place, host_form)| Case { cert, invalid_certs, invalid_hostnames, add_root, route, place, host_form, pin_leaf: false, withdraw: 0, prior: 0, expiring: false, not_yet_valid: false, refusing_proxy: 0 })
+            .prop_map(|(cert, invalid_certs, invalid_hostnames, add_root, route, place, host_form)| Case { cert, invalid_certs, invalid_hostnames, add_root, route, place, host_form, pin_leaf: false, withdraw: 0, prior: 0, expiring: false, not_yet_valid: false, refusing_proxy: 0, same_endpoint: false, v6_low_bits: false })
             .boxed()
     }
 
@@ -406,6 +466,12 @@ non-trivial = at least one danger flag, an added root or a non-valid certificate
         }
         if case.refusing_proxy != 0 {
             return check_refusing_proxy(case, ctx);
+        }
+        if case.same_endpoint {
+            return check_same_endpoint(case, ctx);
+        }
+        if case.v6_low_bits {
+            return check_v6_low_bits(case, ctx);
         }
         if case.expiring {
             return check_expiring(ctx);
